@@ -158,6 +158,33 @@ def compare(ins, sp, bs):
                 out.append(('op%d.rel' % k, 'displacement miasmX 0x%x, IA-32 0x%x' % (mo[k][1] & 0xffffffff, o[1] & 0xffffffff)))
     return out
 
+R32N = ['eax', 'ecx', 'edx', 'ebx', 'esp', 'ebp', 'esi', 'edi']
+def text_clause(ins, sp):
+    """the property speaks of the instruction "as shown by its Intel-syntax rendering": the rendering is the same each time it is asked
+       for, and the memory operand it shows is the one the bytes encode"""
+    from checks import C01sse
+    import re
+    out = []
+    pre0 = list(getattr(ins, 'prefix', []) or [])
+    try:
+        t1 = str(ins); t2 = str(ins)
+    except Exception:
+        return out                  # rendering crashes are C10's findings
+    if t1 != t2 or list(getattr(ins, 'prefix', []) or []) != pre0:
+        out.append(('render-repeat', 'first rendering %r, second rendering %r (prefix list %s -> %s)' % (t1, t2, pre0, list(getattr(ins, 'prefix', []) or []))))
+        return out
+    for o in sp['ops']:
+        if o[0] != 'mem' or o[7] != 32 or (o[1] is None and o[2] is None): continue
+        terms = []
+        if o[1] is not None: terms.append(R32N[o[1]])
+        if o[2] is not None: terms.append('%s*%d' % (R32N[o[2]], o[3]))
+        d = o[4] & 0xffffffff
+        want = C01sse.canon_mem('+'.join(terms) + ('+%d' % d if d else ''))
+        got = [C01sse.canon_mem(x.lower()) for x in re.findall(r'\[([^\]]*)\]', t1)]
+        if got and want not in got:
+            out.append(('text.mem', 'rendered %r, the bytes encode [%s]' % (t1, want)))
+    return out
+
 def prefix_is_superfluous(bs, sp, pfx):
     """an operand/address-size prefix is meaning-free when the same bytes without it denote the same instruction"""
     from specs import x86dec
@@ -203,10 +230,12 @@ def replay(hexbytes, clause):
     ins = x86mnemo.dis(bs)
     sp = x86dec.decode(bs)
     print('bytes      :', hexbytes)
-    print('miasmX     :', (str(ins).strip(), 'length %d' % ins.l, miasm_abstract(ins)) if ins is not None else None)
-    print('IA-32 spec :', sp)
-    if ins is None or sp is None: return 0
+    if ins is None or sp is None:
+        print('miasmX     :', ins); print('IA-32 spec :', sp); return 0
     d = compare(ins, sp, bs)
+    if not d: d = text_clause(ins, sp)          # before any other rendering of this object: the clause is about repeated renderings
+    print('miasmX     :', (str(ins).strip(), 'length %d' % ins.l, miasm_abstract(ins)))
+    print('IA-32 spec :', sp)
     for x in d: print('disagreement:', x)
     return 1 if any(x[0] == clause for x in d) else 0
 
@@ -240,6 +269,7 @@ def _work(job):
             out['both'] += 1
             try:
                 d = compare(ins, sp, bs)
+                if not d: d = text_clause(ins, sp)
             except Exception as ex:
                 d = [('compare-crash', '%s: %s' % (type(ex).__name__, str(ex)[:80]))]
             if not d: out['ok'] += 1
